@@ -8,13 +8,15 @@ PROPERTY = "C04"
 def jobs(tier, seed):
     quick = tier == "quick"
     J = []
-    cfgs = ["L-gas", "V-O2"] if quick else ["L-gas", "L-none", "L-codesize", "V-O2", "V-none", "V-O3", "V-Os"]
+    cfgs = ["L-gas", "V-O2"] if quick else ["L-gas", "L-none", "V-O2", "V-O3"]
     # byte-string operations with a symbolic start: the content equality needs minutes per obligation; the quick tier decides
     # the bounds decision (which (start, length) succeed, which revert) and the result length only
     HEAVY = ("bytes.slice", "bytes.extract32", "bytes.concat", "bytes.len-dependent-copy", "dynarray.read")
     for tid, src in F.c04_family(quick).items():
         for cfg in cfgs:
-            light = quick and tid in ("bytes.slice", "bytes.slice.const-len", "bytes.extract32", "bytes.concat", "bytes.len-dependent-copy", "dynarray.read")
+            heavy = tid in ("bytes.slice", "bytes.slice.const-len", "bytes.extract32", "bytes.concat", "bytes.len-dependent-copy", "dynarray.read")
+            # thorough: contents too, under the two default configurations; the other configurations decide bounds and lengths
+            light = heavy and (quick or cfg not in ("L-gas", "V-O2"))
             J.append({"id": f"C04/G/source-semantics[{tid};{cfg}]" + ("/bounds-only" if light else ""), "fn": "vverif.contracts.source_sem:job_src", "args": ("c04." + tid, src, cfg),
                       "kwargs": {"light": light}, "functions": S.FUNCS + FUNCS, "engine": "GenVC"})
     # function-level kernels shared with C14: MemoryLocation.may_overlap / completely_contains soundness is proved there
